@@ -21,11 +21,11 @@ P = {
          "Failed CAS => another thread progressed; list finite (C10).", "3.C07", "loop classification + mark/unlink pairing on CAS outcome edges"),
  "C08": ("Decides that every returned alloc_bytes buffer is zeroed over exactly its accessible extent on all paths, all backends.",
          "ptr::write_bytes model; exclusivity from C01/C02.", "3.C08", "must-pass-through (clear after last extent store) + term rule on Meta::clear"),
- "C09": ("Decides size-check-before-map, validation-dominates-writes, completeness of the validator against the writer's offsets, read-only constructor flags, ro-guard coverage of the safe mutating API.",
+ "C09": ("Decides size-check-before-map, validation-dominates-writes, completeness of the validator against the writer's offsets, read-only constructor flags, ro-guard coverage of the safe mutating API, the open-function dispatch table, checked offset / length arithmetic on the open path (no underflow, no u64 overflow, no narrowing of a mapping longer than u32::MAX).",
          "File::set_len extension only; user-requested truncate(true) out of scope.", "3.C09", "dominance on validation outcome edges + effect summaries + constant rules"),
  "C10": ("Decides the policy structure (comparators, head-pop/first-fit, fail-iff guards, remainder threshold and policy, None arm, insertion loop shape) and that cursor-lowering operations keep the list below the cursor (F7: rewind does not - known finding). Well-formedness at quiescent points follows from C01's invariant by a written argument (Appendix A.2).",
          "-", "3.C10", "comparator/guard term rules + sibling agreement"),
- "C11": ("Decides agreement of guarded-effect summaries of paired sync/unsync functions under the single-thread projection of sync; tolerated differences listed by key.",
+ "C11": ("Decides agreement of guarded-effect summaries of paired sync/unsync functions under the single-thread projection of sync (guard sets compared syntactically after canonicalisation, then by mutual implication of the exact path-condition DNFs); tolerated differences listed by key.",
          "CAS = compare + store on one thread; failed pop is effect-free (C04-E3).", "3.C11", "sibling comparison of guarded-effect summaries"),
  "C12": ("Decides the minimal memory orderings per protocol role and acquire-before-unmount; each requirement has a written racy counter-execution (Appendix A.3); harmless sites unconstrained.",
          "C11 memory model reasoning is by hand; stale-reader hazard excluded (see C02).", "3.C12", "memory-ordering lattice per protocol role (data-flow roles)"),
